@@ -63,6 +63,11 @@ func checkC13(c *Ctx) {
 
 	// byte-level primitives the layouts above are expressed in
 	c.rule("FORMAT-primitives", "length-prefixed bytes and 32-byte hash primitives", 3)
+	c.rule("ERR-decode-invalidates", "an iterator whose stored entry failed to decode becomes invalid with the error set (no accessor runs on a missing node)", 3)
+	{
+		ea := newErrAnalysis(c, l)
+		ea.runErrorInvalidates("ERR-decode-invalidates", nil)
+	}
 	c.rule("FORMAT-narrowing", "a decoded integer stored into a narrower field is accepted exactly over that field's range (the range the encoder emits)", 3)
 	checkNarrowing(c)
 	checkFormatX(c, l, "FORMAT-primitives", "encoding.EncodeBytes", l.Func("internal/encoding", "EncodeBytes"), false, true, []string{"U(len(arg1)) W(arg1)"})
